@@ -5,7 +5,8 @@ import SqfModel.VM.Sched
 Two layers.
 
 * **Sequential layer** (`exec`): one controlling thread issues the actions one after another on a runtime
-  that holds at most one script context. Instruction execution is that of the VM model (`VM.step` =
+  that steps one script context; scripts it spawns meanwhile wait in `m.spawned` (the tail of `m_contexts`) until a
+  `start` schedules them or an `abort` discards them. Instruction execution is that of the VM model (`VM.step` =
   `execute_do(runtime, 1)`); the line of the next instruction is a parameter `lineOf` (the VM model does
   not carry source positions; the correspondence check instantiates it for programs laid out one
   statement per line).
@@ -52,7 +53,7 @@ def stateOf : StepRes → CState
 /-- the tail of every executing action: map the result to a state; an exit request (`exit__`, time limit)
     discards all contexts and leaves the VM empty -/
 def finish (r : Rt) (c : Option Ctx) (m : M) (res : StepRes) : Rt × Res :=
-  if m.exitReq then ({ ctx := none, m := m, state := .empty }, resOf res)
+  if m.exitReq then ({ ctx := none, m := { m with spawned := [] }, state := .empty }, resOf res)
   else ({ ctx := c, m := m, state := stateOf res }, resOf res)
 
 /-- `execute_do(*this, 1)` on the script context; the machine's scratch context is loaded and stored back -/
@@ -118,13 +119,15 @@ def startAct (r : Rt) (fuel : Nat := 1000000) : Rt × Res :=
   match r.ctx with
   | none => finish r none (begin r.m) .empty
   | some c =>
-    let s := VM.start 150 fuel { ctxs := [c], m := r.m }
-    ({ ctx := s.rt.ctxs.head?, m := s.rt.m, state := s.state }, resOf s.res)
+    -- the scripts spawned while the VM was stepped stand behind the stepped one in `m_contexts`
+    let s := VM.start 150 fuel { ctxs := c :: r.m.spawned, m := { r.m with spawned := [] } }
+    -- a run that ends in an error keeps its scripts: the failed one is stepped on, the others wait behind it
+    ({ ctx := s.rt.ctxs.head?, m := { s.rt.m with spawned := s.rt.ctxs.drop 1 ++ s.rt.m.spawned }, state := s.state }, resOf s.res)
 
 /-- `action::abort` issued while nothing executes -/
 def abortAct (r : Rt) : Rt × Res :=
   match r.state with
-  | .halted | .haltedError => ({ r with ctx := none, state := .empty }, .ok)
+  | .halted | .haltedError => ({ r with ctx := none, m := { r.m with spawned := [] }, state := .empty }, .ok)
   | .empty => (r, .actionError)
 
 /-- `runtime::execute(action)` as one thread sees it -/
